@@ -86,8 +86,19 @@ theorem shared_state_sites :
        "srv/srv.go:Start:srv:go:func() {", "srv/srv.go:Start:srv:go:func() {"] := by
   decide
 
+/-- Regenerated: every package-level variable of the packages whose code runs both in the sync loop
+    and in the API handlers (node, node/pegnet, node/conversions, srv, fat/fat2). Each is memory
+    shared between goroutines; the ones listed are configuration tables, error values and constants
+    written at start-up only (`node/conversions` has none: `Convert` allocates its operands per
+    call). A new package-level variable — e.g. scratch space hoisted out of a function that both
+    sides call — breaks this obligation. -/
+theorem package_state_sites :
+    Generated.packageVars = ["fat/fat2/activations.go:Fat2RCDEActivation:uint32", "fat/fat2/pticker.go:validPTickerStrings:[]string", "fat/fat2/pticker.go:validPTickers:func", "fat/fat2/transaction.go:coinbase:factom.FsAddress", "node/average.go:AveragePeriod:uint64", "node/average.go:AverageRequired:AveragePeriod / 2", "node/burns.go:BurnAddress:\"EC2BURNFCT2PEGNETooo1oooo1oooo1oooo1oooo1oooo19wthin\"", "node/burns.go:BurnRCD:[32]byte", "node/burns.go:GlobalBurnAddress:\"FA2BURNBABYBURNoooooooooooooooooooooooooooooooDGvNXy\"", "node/burns.go:GlobalMintAddress:\"FA3j16WPCiqsAFHVZcEoL85Khh5RhPCNe6PWHBKgUxrx8MAnbNoy\"", "node/burns.go:GlobalOldBurnAddress:\"FA1y5ZGuHSLmf2TqNf6hVMkPiNGyQpQDTFJvDLRkKQaoPo4bmbgu\"", "node/devs.go:DeveloperRewardAddreses:[]DevReward", "node/mint.go:MintTotalSupplyMap:[]MintSupply", "node/pegnet/addresses.go:addressSelectCols:``", "node/pegnet/addresses.go:snapshotMinSelectCols:``", "node/pegnet/admin.go:Hardforks:[]ForkEvent", "node/pegnet/admin.go:PegnetdSyncVersion:2", "node/pegnet/errors.go:InsufficientBalanceErr:errors.New", "node/pegnet/errors.go:InsufficientBalanceErrInt:int64", "node/pegnet/errors.go:PFCTOneWayError:errors.New", "node/pegnet/errors.go:PFCTOneWayErrorInt:int64", "node/pegnet/errors.go:PSMALLOneWayError:errors.New", "node/pegnet/errors.go:PSMALLOneWayErrorInt:int64", "node/pegnet/errors.go:ZeroRatesError:errors.New", "node/pegnet/errors.go:ZeroRatesErrorInt:int64", "srv/errors.go:ErrorAddressNotFound:jrpc.NewError", "srv/errors.go:ErrorInvalidTransaction:jrpc.NewError", "srv/errors.go:ErrorNoEC:jrpc.NewError", "srv/errors.go:ErrorNotFound:jrpc.NewError", "srv/errors.go:ErrorPendingDisabled:jrpc.NewError", "srv/errors.go:ErrorTokenNotFound:jrpc.NewError", "srv/errors.go:ErrorTokenSyncing:jrpc.NewError", "srv/errors.go:ErrorTransactionNotFound:jrpc.NewError", "srv/srv.go:srv:http.Server"] := by
+  decide
+
 end Pegnet.C18
 
 #print axioms Pegnet.C18.api_isolation
 #print axioms Pegnet.C18.api_sees_committed_only
 #print axioms Pegnet.C18.shared_state_sites
+#print axioms Pegnet.C18.package_state_sites
